@@ -176,7 +176,7 @@ def san_env(variant, extra=None):
     return env
 
 
-def run_encode(case, variant="rel", timeout=600, env=None, keep=True, work=None, extra_cases=None):
+def run_encode(case, variant="rel", timeout=200, env=None, keep=True, work=None, extra_cases=None):
     """Run one svtdrv process on `case` (plus optional concurrent extra cases). Returns EncResult
     (list of EncResult when extra_cases is given)."""
     b = bins(variant)
@@ -193,6 +193,7 @@ def run_encode(case, variant="rel", timeout=600, env=None, keep=True, work=None,
         paths.append(cp)
         res.append(r)
     e = san_env(variant, env)
+    e.setdefault("SVTDRV_MAXIDLE_S", str(max(30, int(timeout * 0.6))))
     t0 = time.time()
     try:
         p = subprocess.run([b["svtdrv"]] + paths, env=e, stdout=subprocess.PIPE, stderr=subprocess.PIPE,
